@@ -3,6 +3,7 @@ package sim
 import (
 	"fmt"
 	"math/rand"
+	"strings"
 	"time"
 
 	abci "github.com/cometbft/cometbft/abci/types"
@@ -264,8 +265,17 @@ func (c *Chain) commit(res *abci.ResponseFinalizeBlock) {
 		// C01/C02 oracles, so here it is only recorded and the chain is no longer produced.
 		c.Halted = true
 		c.HaltReason = fmt.Sprintf("engine rejected validator updates at height %d: %v", h, err)
-		c.W.Event("C19", "chain-halted-by-engine:"+c.kind())
 		c.W.Op("chain %s halted: %s", c.ID, c.HaltReason)
+		if strings.Contains(err.Error(), "empty set") {
+			c.W.Event("C19", "chain-halted-by-engine:"+c.kind())
+		} else {
+			// updates a consensus engine cannot apply (removal of an unknown key, duplicates, ...) are never legitimate
+			prop := "C01"
+			if c.IsProvider {
+				prop = "C15"
+			}
+			c.W.Violation(prop, "validator-updates-rejected-by-consensus-engine:"+c.kind(), map[string]any{"chain": c.ID, "height": h, "error": err.Error(), "updates": fmtUpdates(res.ValidatorUpdates)})
+		}
 		nv = tc.Vals
 	}
 	tc.NextVals = nv
